@@ -123,9 +123,10 @@ theorem C17_wsgi (app : Wsgi.App) (locs : List Stage) (sched : List Nat) (i : Na
     objects the model knows about; containers that are only ever read do not matter -/
 theorem shared_inventory_known : ∀ w ∈ Gen.Shared.writes, w.1 ∈ knownShared := by decide
 
-/-- every syntactic write to one of them sits in a function that runs at import or configuration
-    time - none in code that serves a request -/
+/-- no syntactic write to a shared object sits in a function that can run while a request is
+    served (the functions reachable in the package's call graph from `Application.__call__`,
+    regenerated with the inventory): writers run at import or configuration time only -/
 theorem no_request_time_writes :
-    (Gen.Shared.writes.filter fun w => !configTime w.2.1) = [] := by decide
+    (Gen.Shared.writes.filter fun w => Gen.Shared.requestReachable.contains w.2.1) = [] := by decide
 
 end Poor.Props.C17
